@@ -243,12 +243,18 @@ def gen_current_spec(rnd, names, solve_time, cur_units, dynamic=None):
     }
 
 
-def gen_field_spec(rnd, solve_time, field_units, kinds=("zero", "const", "ramp", "pw", "sin"), xi_um=0.5):
+def gen_field_spec(rnd, solve_time, field_units, kinds=("zero", "const", "ramp", "pw", "sin"), xi_um=0.5, cur_units="uA"):
     f = FIELD_FACTOR[field_units]
     # field scale: a fraction of Bc2 = Phi0/(2 pi xi^2); Bc2(xi=0.5um) ~ 1.3 mT
     bc2_mT = 2.0678e-15 / (2 * math.pi * (xi_um * 1e-6) ** 2) * 1e3
     B = r3(rnd.choice([0.05, 0.2, 0.5]) * bc2_mT * f * rnd.choice([1, 1, -1]))
     kind = rnd.choice(list(kinds))
+    if kind == "loop":
+        # a current loop above the film: field at its centre mu_0 I / (2 R) ~ a fraction of Bc2
+        R = rnd.choice([2.0, 3.0, 5.0])
+        frac = rnd.choice([0.05, 0.2, 0.4])
+        I_A = 2 * (R * xi_um * 1e-6) * (frac * bc2_mT * 1e-3) / (4e-7 * math.pi)
+        return {"kind": "loop", "I": r3(I_A * 1e6 * CUR_FACTOR[cur_units] * rnd.choice([1, -1])), "R": R, "c": [rnd.choice([0.0, 0.5, -1.0]), rnd.choice([0.0, 0.3]), rnd.choice([0.5, 1.0, 2.0])]}
     if kind == "zero":
         return {"kind": "zero"}
     if kind == "const":
@@ -332,7 +338,7 @@ def gen_physics(rnd, **p):
     currents = None
     if names and rnd.random() < p.get("p_currents", 0.85):
         currents = gen_current_spec(rnd, names, solve_time, cu, dynamic=p.get("dyn_currents"))
-    field = gen_field_spec(rnd, solve_time, fu, kinds=p.get("field_kinds", ("zero", "const", "ramp", "pw", "sin")), xi_um=xi_um)
+    field = gen_field_spec(rnd, solve_time, fu, kinds=p.get("field_kinds", ("zero", "const", "ramp", "pw", "sin", "loop")), xi_um=xi_um, cur_units=cu)
     eps = gen_epsilon_spec(rnd, kinds=p.get("eps_kinds", ("none", "none", "none", "const", "spatial", "scalar_spatial", "timedep")))
     faults = []
     if rnd.random() < p.get("refuse", 0.0) and adaptive:
